@@ -158,13 +158,25 @@ func init() {
 		oracles: eng.Oracles{Content: true},
 		gen: func(r *eng.Rng, idx int, th bool) *eng.Program {
 			cfg := eng.GenConfig(r, pickBacking(r, "none", "store", "store", "store", "custom"), false)
-			gp := eng.GenParams{MinBatches: 3, MaxBatches: 18, NKeys: 6 + r.Intn(8), Park: true, Reopen: true, Idle: true}
+			gp := eng.GenParams{MinBatches: 3, MaxBatches: 18, NKeys: 6 + r.Intn(8), Park: true, Reopen: true, Idle: true, QuietPct: 40}
 			if th {
 				gp.MaxBatches = 30
 			}
 			if idx%8 == 7 {
 				gp.WideKeys = 200 + r.Intn(800)
 				gp.MaxBatches = 8
+				gp.SkewedWide = true
+				if cfg.Backing == "store" {
+					cfg.IndexMaxBytes = r.Pick(300, 1400, 5000)
+					cfg.IndexMinKeyBytes = 1
+				}
+			}
+			if idx%8 == 3 {
+				// big first batch followed by small ones: MinMergePercentage
+				// leaves the lowest segment unmerged
+				gp.FirstWide = 300 + r.Intn(700)
+				gp.MaxBatches = 8
+				cfg.MaxPreMergerBatches = r.Pick(4, 10)
 			}
 			return eng.GenProgram(r, "C01", cfg, gp)
 		},
@@ -200,7 +212,14 @@ func init() {
 		gen: func(r *eng.Rng, idx int, th bool) *eng.Program {
 			cfg := eng.GenConfig(r, "store", false)
 			gp := eng.GenParams{MinBatches: 4, MaxBatches: 16, NKeys: 6 + r.Intn(8), Park: true, Reopen: true, ReopenMid: true,
-				Children: r.Chance(1, 2), Nested: r.Chance(1, 3), ChildOnlyPct: 10, FinalReopen: true, Idle: true}
+				Children: r.Chance(1, 2), Nested: r.Chance(1, 3), ChildOnlyPct: 10, FinalReopen: true, Idle: true, QuietPct: 30}
+			if idx%6 == 5 {
+				gp.WideKeys = 150 + r.Intn(500)
+				gp.SkewedWide = true
+				gp.MaxBatches = 8
+				cfg.IndexMaxBytes = r.Pick(300, 1400, 5000)
+				cfg.IndexMinKeyBytes = 1
+			}
 			p := eng.GenProgram(r, "C04", cfg, gp)
 			// One case in five reopens immediately after Close, racing the
 			// closed instance's asynchronous file removals.
@@ -219,7 +238,7 @@ func init() {
 			cfg := eng.GenConfig(r, "store", false)
 			cfg.KeepFiles = false
 			gp := eng.GenParams{MinBatches: 5, MaxBatches: 20, NKeys: 6 + r.Intn(8), Park: r.Chance(1, 3),
-				Children: r.Chance(1, 2), Nested: r.Chance(1, 4), Idle: true, Reopen: r.Chance(1, 4)}
+				Children: r.Chance(1, 2), Nested: r.Chance(1, 4), Idle: true, Reopen: r.Chance(1, 4), QuietPct: 25}
 			if idx%6 == 5 {
 				gp.WideKeys = 100 + r.Intn(400)
 				gp.MaxBatches = 10
@@ -237,7 +256,7 @@ func init() {
 		gen: func(r *eng.Rng, idx int, th bool) *eng.Program {
 			cfg := eng.GenConfig(r, pickBacking(r, "none", "store", "store", "store", "custom"), true)
 			gp := eng.GenParams{MinBatches: 3, MaxBatches: 16, NKeys: 4 + r.Intn(6), Park: true, Reopen: true, Merge: true,
-				Children: cfg.Backing != "custom" && r.Chance(1, 3), Idle: true}
+				Children: cfg.Backing != "custom" && r.Chance(1, 3), Idle: true, QuietPct: 30}
 			return eng.GenProgram(r, "C08", cfg, gp)
 		},
 		minUnits: 20,
@@ -251,7 +270,14 @@ func init() {
 		gen: func(r *eng.Rng, idx int, th bool) *eng.Program {
 			merge := r.Chance(1, 2)
 			cfg := eng.GenConfig(r, pickBacking(r, "none", "store", "store", "custom"), merge)
-			gp := eng.GenParams{MinBatches: 3, MaxBatches: 16, NKeys: 5 + r.Intn(8), Park: true, Reopen: r.Chance(1, 3), Merge: merge, Idle: true}
+			gp := eng.GenParams{MinBatches: 3, MaxBatches: 16, NKeys: 5 + r.Intn(8), Park: true, Reopen: r.Chance(1, 3), Merge: merge, Idle: true, QuietPct: 25}
+			if idx%6 == 5 && cfg.Backing == "store" {
+				gp.WideKeys = 150 + r.Intn(500)
+				gp.SkewedWide = true
+				gp.MaxBatches = 8
+				cfg.IndexMaxBytes = r.Pick(300, 1400, 5000)
+				cfg.IndexMinKeyBytes = 1
+			}
 			return eng.GenProgram(r, "C10", cfg, gp)
 		},
 		minUnits: 20,
@@ -265,7 +291,7 @@ func init() {
 		gen: func(r *eng.Rng, idx int, th bool) *eng.Program {
 			cfg := eng.GenConfig(r, pickBacking(r, "none", "store", "store", "store"), false)
 			gp := eng.GenParams{MinBatches: 4, MaxBatches: 16, NKeys: 4 + r.Intn(5), Park: r.Chance(1, 2), Reopen: true,
-				Children: true, Nested: r.Chance(1, 2), ChildOnlyPct: 25, DelOnlyPct: 10, Idle: true, FinalReopen: r.Chance(1, 2)}
+				Children: true, Nested: r.Chance(1, 2), ChildOnlyPct: 25, DelOnlyPct: 12, Idle: true, FinalReopen: r.Chance(1, 2), QuietPct: 25}
 			return eng.GenProgram(r, "C11", cfg, gp)
 		},
 		minUnits: 20,
@@ -279,7 +305,7 @@ func init() {
 		gen: func(r *eng.Rng, idx int, th bool) *eng.Program {
 			merge := r.Chance(2, 3)
 			cfg := eng.GenConfig(r, "custom", merge)
-			gp := eng.GenParams{MinBatches: 4, MaxBatches: 18, NKeys: 4 + r.Intn(8), Park: r.Chance(1, 2), Merge: merge, Idle: true}
+			gp := eng.GenParams{MinBatches: 4, MaxBatches: 18, NKeys: 4 + r.Intn(8), Park: r.Chance(2, 3), Merge: merge, Idle: true, QuietPct: 25}
 			p := eng.GenProgram(r, "C13", cfg, gp)
 			p.Steps = append(p.Steps, eng.Step{K: "drain"}, eng.Step{K: "drain"}, eng.Step{K: "lowerfinal"})
 			return p
